@@ -383,3 +383,216 @@ Proof.
     destruct (LSDBProofs.regen_lookup_local d) as (e & He & Hs & Hl & _).
     split; [exists e; auto |]. split; [reflexivity |]. split; reflexivity.
 Qed.
+
+(* ------------------------------------------------------------------ two speakers: the verdict on an emitted hello *)
+
+Lemma threeway_type : forall f, C.tlv_type (threeway_tlv f) = 240.
+Proof.
+  intros f. unfold threeway_tlv. destruct (p2p_neighbor f) as [[k nb] |]; [| reflexivity].
+  destruct (A.state nb); try reflexivity; destruct (info_lookup k (if_info f)); reflexivity.
+Qed.
+
+(* T names S on its interface ft: its single neighbor there is not Down and was learnt with S's
+   system id and the circuit id of S's interface f *)
+Definition names (T : spk) (ft : sif) (S : spk) (f : sif) : bool :=
+  match p2p_neighbor ft with
+  | Some (k, nb) =>
+    match A.state nb, info_lookup k (if_info ft) with
+    | A.Down, _ | _, None => false
+    | _, Some i => (be_val (ni_sys i) =? be_val (sp_sys S)) && (N.of_nat (length (ni_sys i)) =? 6) &&
+                   (u32 (ni_ecid i) =? u32 (if_index f))
+    end
+  | None => false
+  end.
+
+(* What a speaker S concludes (C31 verdict) from the hello bytes another speaker T emits on a link
+   whose addresses match: "lists us" exactly when T's neighbor table names S - the abstract
+   [lists_me] flag of Model/Adj.v is the three-way TLV that went over the wire. *)
+Theorem verdict_of_emitted : forall S f T ft, cfg_ok T -> area_ok T -> if_ok T ft ->
+  be_val (sp_sys S) <> 0 ->       (* a three-way TLV without neighbor fields reads as system id 0, circuit 0 *)
+  pfx_contains (if_addr f) (if_plen f) (if_addr ft) = true ->
+  exists h, C.decode (hello_bytes T ft) = C.Ok (C.mkPacket hdr_hello (C.BHello h)) /\
+    C.hl_sys h = sp_sys T /\ C.hl_hold h = u16 (sp_hold T) /\
+    hello_verdict S f h = (if names T ft S f then A.Lists else A.NotLists) /\
+    info_of_hello h = mkInfo (sp_sys T) (u32 (if_index ft)) [u32 (if_addr ft)].
+Proof.
+  intros S f T ft Hc Ha Hf Hnz Hp.
+  destruct (hello_decodes T ft Hc Ha Hf) as (h & Hd & Hct & Hsys & Hhold & Htlvs).
+  exists h. split; [exact Hd |]. split; [exact Hsys |]. split; [exact Hhold |].
+  assert (Hv : hello_valid f h = true).
+  { unfold hello_valid. rewrite Htlvs. cbn [first_tlv]. rewrite threeway_type.
+    cbn [N.eqb C.tlv_type C.new_proto_tlv C.new_ipif_tlv C.new_area_tlv Pos.eqb].
+    assert (H3 : exists a b c d e g, threeway_tlv ft = C.TP2PAdj a b c d e g).
+    { unfold threeway_tlv, C.new_p2padj_tlv. destruct (p2p_neighbor ft) as [[k nb] |]; [| repeat eexists].
+      destruct (A.state nb); [destruct (info_lookup k (if_info ft)) | destruct (info_lookup k (if_info ft)) |];
+        repeat eexists. }
+    destruct H3 as (a & b & c & d & e & g & H3). rewrite H3.
+    cbn. rewrite Hp. reflexivity. }
+  split.
+  - unfold hello_verdict. rewrite Hct, Hv. cbn [N.eqb Pos.eqb orb negb].
+    unfold lists_me, names. rewrite Htlvs. cbn [first_tlv]. rewrite threeway_type. cbn [N.eqb Pos.eqb].
+    unfold threeway_tlv, C.new_p2padj_tlv.
+    assert (Hz : (be_val C.zero6 =? be_val (sp_sys S)) = false).
+    { apply N.eqb_neq. change (be_val C.zero6) with 0. auto. }
+    destruct (p2p_neighbor ft) as [[k nb] |]; [| rewrite Hz; reflexivity].
+    destruct (A.state nb); [destruct (info_lookup k (if_info ft)) as [i |] | destruct (info_lookup k (if_info ft)) as [i |] |];
+      try (rewrite Hz; reflexivity); reflexivity.
+  - unfold info_of_hello. rewrite Hsys, Htlvs. cbn [first_tlv]. rewrite threeway_type. cbn [N.eqb Pos.eqb].
+    assert (He : match threeway_tlv ft with C.TP2PAdj _ _ _ ecid _ _ => u32 ecid | _ => 0 end = u32 (if_index ft)).
+    { unfold threeway_tlv, C.new_p2padj_tlv. destruct (p2p_neighbor ft) as [[k nb] |].
+      - destruct (A.state nb); try (unfold u32; rewrite N.mod_mod by discriminate; reflexivity);
+          destruct (info_lookup k (if_info ft)); unfold u32; rewrite N.mod_mod by discriminate; reflexivity.
+      - unfold u32; rewrite N.mod_mod by discriminate; reflexivity. }
+    rewrite He. reflexivity.
+Qed.
+
+(* ------------------------------------------------------------------ two-speaker closure *)
+
+Lemma service_keeps : forall s,
+  sp_ifs (service s) = sp_ifs s /\ sp_sys (service s) = sp_sys s /\ sp_area (service s) = sp_area s /\
+  sp_hold (service s) = sp_hold s /\ sp_now (service s) = sp_now s.
+Proof.
+  intros s. unfold service. destruct (L.pending (sync_db (sp_ifs s) (sp_db s))); simpl; auto.
+Qed.
+
+(* reception of a decodable hello on an interface whose link is up: the interface's neighbor table
+   makes the step of Model/Adj.v with the verdict computed from the decoded TLVs *)
+Lemma recv_hello_ifs : forall S i f src b hd h,
+  nth_error (sp_ifs S) i = Some f -> if_up f = true ->
+  C.decode b = C.Ok (C.mkPacket hd (C.BHello h)) ->
+  let v := hello_verdict S f h in
+  let S' := recv_pdu S i src b in
+  sp_ifs S' = set_nth i
+    (mkSif (if_index f) (if_addr f) (if_plen f) (if_up f)
+       (fst (adj_hello (sp_now S) (if_nbrs f) src (u16 (C.hl_hold h)) v))
+       (if match v, A.lookup src (if_nbrs f) with
+           | A.Lists, None | A.NotLists, None => true
+           | _, _ => false
+           end then (src, info_of_hello h) :: if_info f else if_info f)) (sp_ifs S) /\
+  sp_sys S' = sp_sys S /\ sp_area S' = sp_area S /\ sp_hold S' = sp_hold S /\ sp_now S' = sp_now S.
+Proof.
+  intros S i f src b hd h Hn Hu Hd v S'. unfold S', recv_pdu. rewrite Hn, Hu, Hd.
+  cbn [C.p_body recv_body]. fold v.
+  destruct (adj_hello (sp_now S) (if_nbrs f) src (u16 (C.hl_hold h)) v) as [t' req] eqn:Ea.
+  match goal with |- context [service ?x] => destruct (service_keeps x) as (H1 & H2 & H3 & H4 & H5) end.
+  rewrite H1, H2, H3, H4, H5. cbn [fst]. rewrite ?Hu. repeat split; reflexivity.
+Qed.
+
+Definition link_compat (f g : sif) : Prop :=
+  if_addr f < 4294967296 /\ if_addr g < 4294967296 /\
+  pfx_contains (if_addr f) (if_plen f) (if_addr g) = true /\
+  pfx_contains (if_addr g) (if_plen g) (if_addr f) = true.
+
+Definition nbr_state (s : spk) (k : N) : option A.adj_state :=
+  match sp_ifs s with
+  | [f] => match A.lookup k (if_nbrs f) with Some nb => Some (A.state nb) | None => None end
+  | _ => None
+  end.
+
+Definition hello_of_first (s : spk) : list N :=
+  match sp_ifs s with f :: _ => hello_bytes s f | [] => [] end.
+
+(* Two freshly started speakers on one link, each fed the hello bytes the other one emits: after
+   two hellos in each direction both adjacencies are Up (the three-way handshake closes over the wire). *)
+Theorem two_speaker_closure : forall SA SB fa fb ma mb,
+  cfg_ok SA -> cfg_ok SB -> area_ok SA -> area_ok SB ->
+  be_val (sp_sys SA) <> 0 -> be_val (sp_sys SB) <> 0 ->
+  sp_ifs SA = [fa] -> sp_ifs SB = [fb] -> if_up fa = true -> if_up fb = true ->
+  if_nbrs fa = [] -> if_nbrs fb = [] -> link_compat fa fb ->
+  let B1 := recv_pdu SB 0 ma (hello_of_first SA) in
+  let A1 := recv_pdu SA 0 mb (hello_of_first B1) in
+  let B2 := recv_pdu B1 0 ma (hello_of_first A1) in
+  let A2 := recv_pdu A1 0 mb (hello_of_first B2) in
+  nbr_state B1 ma = Some A.Init /\ nbr_state A1 mb = Some A.Init /\
+  nbr_state B2 ma = Some A.Up /\ nbr_state A2 mb = Some A.Up.
+Proof.
+  intros SA SB fa fb ma mb HcA HcB HaA HaB HzA HzB HiA HiB HuA HuB HnA HnB (Hra & Hrb & Hpab & Hpba) B1 A1 B2 A2.
+  (* --- hello 1: A -> B, A has no neighbor *)
+  assert (HokA0 : if_ok SA fa).
+  { split; [exact Hra |]. intros k nb i Hp. unfold p2p_neighbor in Hp. rewrite HnA in Hp. discriminate. }
+  destruct (verdict_of_emitted SB fb SA fa HcA HaA HokA0 HzB Hpba) as (h1 & Hd1 & Hs1 & Hh1 & Hv1 & Hi1).
+  assert (Hn1 : names SA fa SB fb = false) by (unfold names, p2p_neighbor; rewrite HnA; reflexivity).
+  rewrite Hn1 in Hv1.
+  assert (HfB : nth_error (sp_ifs SB) 0 = Some fb) by (rewrite HiB; reflexivity).
+  destruct (recv_hello_ifs SB 0%nat fb ma (hello_of_first SA) hdr_hello h1 HfB HuB) as (HB1 & HB1s & HB1a & HB1h & HB1n).
+  { unfold hello_of_first. rewrite HiA. exact Hd1. }
+  fold B1 in HB1, HB1s, HB1a, HB1h, HB1n.
+  rewrite Hv1, HnB, HiB in HB1. cbn [A.lookup set_nth] in HB1.
+  unfold adj_hello in HB1. cbn [A.step A.on_hello A.nbrs A.lookup A.update fst A.now] in HB1.
+  rewrite Hi1, Hh1 in HB1.
+  set (fb1 := mkSif (if_index fb) (if_addr fb) (if_plen fb) (if_up fb)
+                [(ma, A.mkNbr A.Init (sp_now SB + u16 (u16 (sp_hold SA))) (sp_now SB))]
+                ((ma, mkInfo (sp_sys SA) (u32 (if_index fa)) [u32 (if_addr fa)]) :: if_info fb)) in *.
+  (* --- hello 2: B1 -> A, B1 names A (Init) *)
+  assert (HcB1 : cfg_ok B1) by (unfold cfg_ok; rewrite HB1s; exact HcB).
+  assert (HaB1 : area_ok B1) by (unfold area_ok; rewrite HB1a; exact HaB).
+  assert (HokB1 : if_ok B1 fb1).
+  { split; [exact Hrb |]. intros k nb i Hp Hl. unfold p2p_neighbor in Hp. cbn in Hp. injection Hp as Hk _. subst k.
+    cbn in Hl. rewrite N.eqb_refl in Hl. injection Hl as Hl. subst i. split; [exact HcA | apply u32_lt]. }
+  destruct (verdict_of_emitted SA fa B1 fb1 HcB1 HaB1 HokB1 HzA Hpab) as (h2 & Hd2 & Hs2 & Hh2 & Hv2 & Hi2).
+  assert (Hn2 : names B1 fb1 SA fa = true).
+  { unfold names, p2p_neighbor. cbn. rewrite N.eqb_refl. cbn. rewrite N.eqb_refl, HcA. cbn.
+    unfold u32. rewrite N.mod_mod by discriminate. rewrite N.eqb_refl. reflexivity. }
+  rewrite Hn2 in Hv2.
+  assert (HfA : nth_error (sp_ifs SA) 0 = Some fa) by (rewrite HiA; reflexivity).
+  destruct (recv_hello_ifs SA 0%nat fa mb (hello_of_first B1) hdr_hello h2 HfA HuA) as (HA1 & HA1s & HA1a & HA1h & HA1n).
+  { unfold hello_of_first. rewrite HB1. exact Hd2. }
+  fold A1 in HA1, HA1s, HA1a, HA1h, HA1n.
+  rewrite Hv2, HnA, HiA in HA1. cbn [A.lookup set_nth] in HA1.
+  unfold adj_hello in HA1. cbn [A.step A.on_hello A.nbrs A.lookup A.update fst A.now] in HA1.
+  rewrite Hi2, Hh2 in HA1.
+  set (fa1 := mkSif (if_index fa) (if_addr fa) (if_plen fa) (if_up fa)
+                [(mb, A.mkNbr A.Init (sp_now SA + u16 (u16 (sp_hold B1))) (sp_now SA))]
+                ((mb, mkInfo (sp_sys B1) (u32 (if_index fb1)) [u32 (if_addr fb1)]) :: if_info fa)) in *.
+  (* --- hello 3: A1 -> B1, A1 names B *)
+  assert (HcA1 : cfg_ok A1) by (unfold cfg_ok; rewrite HA1s; exact HcA).
+  assert (HaA1 : area_ok A1) by (unfold area_ok; rewrite HA1a; exact HaA).
+  assert (HokA1 : if_ok A1 fa1).
+  { split; [exact Hra |]. intros k nb i Hp Hl. unfold p2p_neighbor in Hp. cbn in Hp. injection Hp as Hk _. subst k.
+    cbn in Hl. rewrite N.eqb_refl in Hl. injection Hl as Hl. subst i. split; [rewrite HB1s; exact HcB | apply u32_lt]. }
+  assert (HzB1 : be_val (sp_sys B1) <> 0) by (rewrite HB1s; exact HzB).
+  assert (Hpba1 : pfx_contains (if_addr fb1) (if_plen fb1) (if_addr fa1) = true) by exact Hpba.
+  destruct (verdict_of_emitted B1 fb1 A1 fa1 HcA1 HaA1 HokA1 HzB1 Hpba1) as (h3 & Hd3 & Hs3 & Hh3 & Hv3 & Hi3).
+  assert (Hn3 : names A1 fa1 B1 fb1 = true).
+  { unfold names, p2p_neighbor. cbn. rewrite N.eqb_refl. cbn. rewrite N.eqb_refl, HB1s, HcB. cbn.
+    unfold u32. rewrite N.mod_mod by discriminate. rewrite N.eqb_refl. reflexivity. }
+  rewrite Hn3 in Hv3.
+  assert (HfB1 : nth_error (sp_ifs B1) 0 = Some fb1) by (rewrite HB1; reflexivity).
+  destruct (recv_hello_ifs B1 0%nat fb1 ma (hello_of_first A1) hdr_hello h3 HfB1 HuB) as (HB2 & HB2s & _).
+  { unfold hello_of_first. rewrite HA1. exact Hd3. }
+  fold B2 in HB2, HB2s.
+  rewrite Hv3, HB1 in HB2. cbn [if_nbrs fb1 A.lookup set_nth] in HB2. rewrite N.eqb_refl in HB2.
+  unfold adj_hello in HB2. cbn [A.step] in HB2. unfold A.on_hello, A.hello_existing in HB2.
+  cbn [A.nbrs A.lookup A.now A.state A.is_up negb andb fst snd] in HB2. rewrite N.eqb_refl in HB2.
+  cbn [A.state A.is_up negb andb A.update fst snd A.nbrs] in HB2. rewrite N.eqb_refl in HB2.
+  (* --- hello 4: B2 -> A1, B2 names A (Up) *)
+  set (fb2 := mkSif (if_index fb1) (if_addr fb1) (if_plen fb1) (if_up fb1)
+                [(ma, A.mkNbr A.Up (sp_now B1 + u16 (C.hl_hold h3)) (sp_now B1))] (if_info fb1)) in *.
+  assert (HcB2 : cfg_ok B2) by (unfold cfg_ok; rewrite HB2s, HB1s; exact HcB).
+  assert (HaB2 : area_ok B2).
+  { unfold area_ok. destruct (recv_hello_ifs B1 0%nat fb1 ma (hello_of_first A1) hdr_hello h3 HfB1 HuB) as (_ & _ & Ha' & _).
+    { unfold hello_of_first. rewrite HA1. exact Hd3. }
+    fold B2 in Ha'. rewrite Ha', HB1a. exact HaB. }
+  assert (HokB2 : if_ok B2 fb2).
+  { split; [exact Hrb |]. intros k nb i Hp Hl. unfold p2p_neighbor in Hp. cbn in Hp. injection Hp as Hk _. subst k.
+    cbn in Hl. rewrite N.eqb_refl in Hl. injection Hl as Hl. subst i. split; [exact HcA | apply u32_lt]. }
+  assert (HzA1 : be_val (sp_sys A1) <> 0) by (rewrite HA1s; exact HzA).
+  assert (Hpab1 : pfx_contains (if_addr fa1) (if_plen fa1) (if_addr fb2) = true) by exact Hpab.
+  destruct (verdict_of_emitted A1 fa1 B2 fb2 HcB2 HaB2 HokB2 HzA1 Hpab1) as (h4 & Hd4 & Hs4 & Hh4 & Hv4 & Hi4).
+  assert (Hn4 : names B2 fb2 A1 fa1 = true).
+  { unfold names, p2p_neighbor, fb2, fb1. repeat (progress (cbn; rewrite ?N.eqb_refl)).
+    rewrite HA1s, HcA. repeat (progress (cbn; rewrite ?N.eqb_refl)).
+    unfold u32. rewrite N.mod_mod by discriminate. rewrite N.eqb_refl. reflexivity. }
+  rewrite Hn4 in Hv4.
+  assert (HfA1 : nth_error (sp_ifs A1) 0 = Some fa1) by (rewrite HA1; reflexivity).
+  destruct (recv_hello_ifs A1 0%nat fa1 mb (hello_of_first B2) hdr_hello h4 HfA1 HuA) as (HA2 & _).
+  { unfold hello_of_first. rewrite HB2. exact Hd4. }
+  fold A2 in HA2.
+  rewrite Hv4, HA1 in HA2. cbn [if_nbrs fa1 A.lookup set_nth] in HA2. rewrite N.eqb_refl in HA2.
+  unfold adj_hello in HA2. cbn [A.step] in HA2. unfold A.on_hello, A.hello_existing in HA2.
+  cbn [A.nbrs A.lookup A.now A.state A.is_up negb andb fst snd] in HA2. rewrite N.eqb_refl in HA2.
+  cbn [A.state A.is_up negb andb A.update fst snd A.nbrs] in HA2. rewrite N.eqb_refl in HA2.
+  (* --- conclusion *)
+  unfold nbr_state. rewrite HB1, HA1, HB2, HA2. unfold fb2, fb1, fa1.
+  cbn [if_nbrs A.lookup A.state]. rewrite !N.eqb_refl. cbn. repeat split; reflexivity.
+Qed.
